@@ -250,6 +250,10 @@ func c04Units(tier string) []Unit {
 			invokes: []*uFunc{iC, iCo, iB, iBo}}, d, b)
 		add("nested-and-named-optional"+tag, cfg, nil, prefixChild, alpha{scopes: scopes2, ctors: []*uFunc{pA, pAn, pBno, pBn2, pBnr, pCb}, export: !q,
 			invokes: []*uFunc{iC, iB, iBo, iNest, iO2}}, d, b)
+		// keys that a decorator produces but no constructor provides, alone and
+		// below optional edges (§3.6-3: definite where dig's behaviour is)
+		add("decorated-unprovided"+tag, cfg, nil, prefixChild, alpha{scopes: scopes2, ctors: []*uFunc{pA, pB, pCob},
+			decos: []*uFunc{dA, dA0}, invokes: []*uFunc{iA, iAo, iB, iBo, iCo}}, d, explore.Budget{Provides: 2, Decorates: 2, Invokes: 2, Rejected: 0})
 		add("through-groups"+tag, cfg, nil, prefixChild, alpha{scopes: scopes2, ctors: []*uFunc{pA, fBgA, pCgb, pCob}, export: !q,
 			invokes: []*uFunc{iC, iCo, iGB}}, d, b)
 		if !q {
